@@ -86,7 +86,7 @@ func init() {
 	}
 	props["C07"] = &propCfg{
 		World: "fed07", QuickRuns: 60000, ThorRuns: 1000000, QuickSecs: 200, ThorSecs: 1800, Level: "exploration", MinNontriv: 50,
-		Rule:        "one case = twin execution of one generated (federation, operation): fault-free run recording requests and provenance, then a run with 1-3 injected faults (transport error, 500, 503 empty, empty body, non-JSON, truncated JSON, errors without data, data:null, short _entities batch) at tape-chosen requests; oracle: valid response, >=1 error, every request sent is a fault-free request with a subset of its representations, data == reference executed with the failed positions failing (positions with two admissible outcomes are compared either way). Non-trivial = at least one fault fired and at least two fault-free requests. Distinct = distinct hash of the context-switch sequence.",
+		Rule:        "one case = twin execution of one generated (federation, operation): fault-free run recording requests and provenance, then a run with 1-3 injected faults (transport error, 500, 503 empty, empty body, non-JSON, truncated JSON, errors without data, data:null, short _entities batch) at tape-chosen requests; in 15% of the cases the only faults are per-entity failures instead (one nullable field of one entity of an _entities answer is null with an error at [_entities, i, field], everything else intact; with ValidateRequiredExternalFields on, a request that still carries such a reported input as null is a violation of its own); oracle: valid response, >=1 error, every request sent is a fault-free request with a subset of its representations, data == reference executed with the failed positions failing (positions with two admissible outcomes are compared either way). Non-trivial = at least one fault fired and at least two fault-free requests. Distinct = distinct hash of the context-switch sequence.",
 		Assumptions: append([]string{"a short _entities list is injected only into batches of >=2 (a single empty list is deliberately read as 'entity not found' by the loader)", "fields bundled by the plan into a request that depends on a failed @requires input are treated as dependent on it"}, fedAssume...), Components: fedComponents,
 	}
 	props["C09"] = &propCfg{
